@@ -24,6 +24,10 @@ on both real queues and compared with the model *and* with each other.
                              counting down, then default / IndexError on the empty queue.
   supplement native-scale directed histories (tens of thousands of entries), NOT exhaustive, reported separately
              (coverage.native_scale_supplement); quick runs the 40 000-task ones, thorough adds 80 000 and factor 8.
+             "deadrun" histories: a burst of k tasks is removed / re-prioritised before anything is consumed (one run
+             of k consecutive dead entries at the head or behind one live task) and the first read is a bare pop /
+             peek / pop(default) / peek(default); k straddles 0, powers of two, the interpreter's recursion limit and
+             the first sub-list split (a cost per dead entry - stack frames, quadratic culling - shows up there).
   hangs      every step runs under a CPU-time budget (ITIMER_VIRTUAL); a step that exceeds it is a violation
              (`does-not-terminate`), the worker skips the rest of its share and the run stops after that search.
 """
@@ -473,8 +477,84 @@ def _scenario_ops(kind, n):
         for i in range(n):
             if i % 10 < 7:
                 yield ('remove', i, None)
+    elif kind.startswith('deadrun:'):
+        yield from _deadrun_ops(kind, n)
     else:
         raise AssertionError(kind)
+
+
+DEADRUN_MODES = ('remove', 'demote', 'requeue', 'promote')
+DEADRUN_HEADS = ('head', 'nohead', 'alldead')
+DEADRUN_FIRSTS = ('pop', 'peek', 'popd', 'peekd')
+READ_SHAPE = {'pop': 'pop', 'peek': 'peek', 'popd': 'pop(default)', 'peekd': 'peek(default)'}
+
+
+def _deadrun_ops(kind, k):
+    """'deadrun:<mode>:<head>:<first read>' - a burst of k equal-priority tasks arrives and is cancelled (mode remove) or
+    re-prioritised (re-added lower / with the same priority / higher) before anything is consumed, which leaves ONE
+    RUN OF k CONSECUTIVE DEAD ENTRIES in both backends: at the very head (nohead / alldead), or directly behind one
+    live top task (head).  Two equal-priority survivors sit behind the run (not with alldead; with mode remove the
+    queue is then empty although its backend holds k entries).  The reads that follow are part of the history and are
+    NOT preceded by any other read: the first read has to step over the whole run (nohead / alldead) or the pop after
+    it has (head).  Task indexes: burst 0..k-1, survivors k and k+1, top task k+2."""
+    _, mode, head, first = kind.split(':')
+    s1, s2, top = k, k + 1, k + 2
+    if head != 'alldead':
+        yield ('add', s1, 1)
+    if head == 'head':
+        yield ('add', top, 20)
+    for i in range(k):
+        yield ('add', i, 10)
+    if head != 'alldead':
+        yield ('add', s2, 1)
+    for i in range(k):
+        if mode == 'remove':
+            yield ('remove', i, None)
+        else:
+            yield ('add', i, {'demote': -5, 'requeue': 10, 'promote': 30}[mode])
+    yield (first, None, None)
+    yield ('pop', None, None)
+    yield ('peek', None, None)
+    yield ('pop', None, None)
+    # ... and the generic part of run_directed pops the rest to empty
+
+
+def deadrun_variants(level):
+    """Variant lists (mode, head, first read).  'alldead' differs from 'nohead' only with mode remove."""
+    full = [(m, h, f) for m in DEADRUN_MODES for h in ('head', 'nohead') for f in DEADRUN_FIRSTS]
+    full += [('remove', 'alldead', f) for f in DEADRUN_FIRSTS]
+    if level == 'full':
+        return full
+    if level == 'medium':
+        return ([(m, h, 'pop') for m in DEADRUN_MODES for h in ('head', 'nohead')] +
+                [('remove', 'head', 'peek'), ('remove', 'nohead', 'peek'), ('remove', 'alldead', 'pop'),
+                 ('remove', 'alldead', 'popd')])
+    if level == 'few':
+        return [('remove', 'nohead', 'pop'), ('demote', 'head', 'pop'), ('requeue', 'nohead', 'pop'),
+                ('promote', 'head', 'pop'), ('remove', 'head', 'peek')]
+    if level == 'two':
+        return [('remove', 'nohead', 'pop'), ('requeue', 'head', 'pop')]
+    raise AssertionError(level)
+
+
+def run_deadrun_group(arg):
+    """All variants of one dead-run length -> (violations, one aggregated stats row)."""
+    _, k, factor, level = arg
+    variants = deadrun_variants(level)
+    Vs = []
+    agg = {'kind': 'deadrun (%d variants: how the run dies x live top task or not x first read)' % len(variants), 'n': k,
+           'size_factor': 'native' if factor is None else factor, 'ops': 0, 'max_entries': 0, 'max_sublists': 0}
+    for m, h, f in variants:
+        V, st = run_directed(('deadrun:%s:%s:%s' % (m, h, f), k, factor))
+        Vs.extend(V)
+        agg['ops'] += st['ops']
+        agg['max_entries'] = max(agg['max_entries'], st['max_entries'])
+        agg['max_sublists'] = max(agg['max_sublists'], st['max_sublists'])
+    return Vs, agg
+
+
+def run_directed_item(arg):
+    return run_deadrun_group(arg) if arg[0] == 'deadrun' else run_directed(arg)
 
 
 def run_directed(arg):
@@ -488,7 +568,8 @@ def run_directed(arg):
     stats = {'kind': kind, 'n': n, 'size_factor': 'native' if factor is None else factor, 'ops': 0, 'max_entries': 0, 'max_sublists': 0}
 
     def body():
-        T = [Task(i) for i in range(n)]
+        T = [Task(i) for i in range(n + 3)]
+        scripted = kind.startswith('deadrun:')          # the history contains its own reads
         qs = {'heap': queueutils.HeapPriorityQueue(), 'sorted': queueutils.SortedPriorityQueue()}
         live = {}            # index -> (effective priority, arrival number)
         arrival = 0
@@ -530,8 +611,41 @@ def run_directed(arg):
                     return False
             return True
 
+        def read(name):
+            """One scripted pop / peek (with or without default) on both queues against the oracle."""
+            want = expected()[:1]
+            exp = want[0] if want else ('raised IndexError' if name in ('pop', 'peek') else DEFAULT)
+            for which, q in qs.items():
+                try:
+                    r = (q.pop() if name == 'pop' else q.peek() if name == 'peek' else
+                         q.pop(DEFAULT) if name == 'popd' else q.peek(DEFAULT))
+                    r = r.name if isinstance(r, Task) else (DEFAULT if r is DEFAULT else 'unexpected value ' + repr(r))
+                except Exception as e:
+                    r = 'raised ' + type(e).__name__
+                stats['ops'] += 1
+                if r != exp:
+                    V.append(('C10|directed|%s:%s' % (which, READ_SHAPE[name]), case,
+                              {'live tasks': len(live), 'expected': exp}, {'observed': r}, None, ()))
+                    return False
+            if want and name.startswith('pop'):
+                del live[want[0]]
+            for which, q in qs.items():
+                try:
+                    ln = len(q)
+                except Exception as e:
+                    ln = 'raised ' + type(e).__name__
+                if ln != len(live):
+                    V.append(('C10|directed|%s:len' % which, case, len(live), ln, None, ()))
+                    return False
+            return True
+
         half = len(pending) // 2
         for step, (name, i, p) in enumerate(pending):
+            if name in READ_SHAPE:
+                measure()
+                if not read(name):
+                    return
+                continue
             for which, q in qs.items():
                 try:
                     if name == 'add':
@@ -548,12 +662,12 @@ def run_directed(arg):
                 arrival += 1
             else:
                 live.pop(i, None)
-            if step == half:
+            if step == half and not scripted:
                 measure()
                 if not pop_some(len(live) // 3, 'after half of the operations'):
                     return
         measure()
-        for which, q in qs.items():
+        for which, q in ({} if scripted else qs).items():
             try:
                 t = q.peek()
                 t = t.name if isinstance(t, Task) else repr(t)
@@ -594,7 +708,39 @@ def directed_plan(tier):
     plan = [(k, 40000, None) for k in DIRECTED_KINDS] + [('purge', 300, None), ('purge', 3000, None)]
     if tier != 'quick':
         plan += [(k, 80000, None) for k in DIRECTED_KINDS] + [(k, 6000, 8) for k in DIRECTED_KINDS]
-    return plan
+    return plan + deadrun_plan(tier)
+
+
+def first_split_size(factor):
+    """Smallest number of entries at which a one-sub-list BarrelList of that size factor exceeds its size limit
+    (the limit formula is re-stated here, it is only used to choose a scenario size)."""
+    import math
+    n = 1
+    while n <= int(round(factor * math.log(n + 2, 2))):
+        n += 1
+    return n
+
+
+def deadrun_plan(tier):
+    """('deadrun', length of the run of dead entries, size factor, variant level).  Lengths straddle the thresholds
+    a per-dead-entry cost could hit: 0/1/2, powers of two +-1, the interpreter's recursion limit (read from the running
+    interpreter) and a multiple of it, and a run longer than the first sub-list split of the sorted backend at the
+    native size factor (computed from the factor found in the module under test)."""
+    import sys
+    R = sys.getrecursionlimit()
+    split = first_split_size(NATIVE[0]) if isinstance(NATIVE[0], int) and 0 < NATIVE[0] <= 4000 else 25000
+    beyond_split = split + split // 8
+    small = sorted({0, 1, 2, 31, 32, 33, 255, 256, 257})
+    edge = sorted({R - 1, R, R + 1, 1023, 1024, 1025})
+    if tier == 'quick':
+        plan = [('deadrun', k, None, 'full') for k in small] + [('deadrun', k, None, 'full') for k in edge]
+        plan += [('deadrun', k, None, 'few') for k in sorted({3 * R, 4096})]
+        plan += [('deadrun', beyond_split, None, 'two')]
+    else:
+        plan = [('deadrun', k, None, 'full') for k in small + edge + sorted({3 * R, 4095, 4096, 4097, 10 * R})]
+        plan += [('deadrun', k, None, 'medium') for k in (beyond_split, 2 * beyond_split)]
+        plan += [('deadrun', k, 8, 'full') for k in small + edge] + [('deadrun', 4096, 8, 'medium')]
+    return [p for p in plan if p[1] >= 0]
 
 
 # ----------------------------------------------------------------------------------------------------
@@ -657,7 +803,7 @@ def run(ctx):
                 stopped = True
                 break
         dplan = [] if stopped else directed_plan(ctx.tier)
-        dres = core.pmap(run_directed, dplan)
+        dres = core.pmap(run_directed_item, dplan)
     finally:
         listutils.BarrelList._size_factor = NATIVE[0]
     cov = histories.merge_coverage(ctx, parts, rule=(
@@ -676,8 +822,13 @@ def run(ctx):
                      'native_size_factor': NATIVE[0]}
     sup = {'exhaustive': False, 'what': 'directed histories at the native size factor with tens of thousands of entries '
            '(thorough: also size factor 8 with hundreds of sub-lists): adds in ascending / descending / equal / '
-           'alternating priority and add/re-add/remove churn, a third popped half-way, peek, then popped to empty, '
-           'against a dict + stable-sort oracle', 'scenarios': []}
+           'alternating priority and add/re-add/remove churn, a third popped half-way, peek, then popped to empty; '
+           'scattered removal of 70 % of the entries; and "deadrun" histories: a burst of k equal-priority tasks is '
+           'removed / re-added lower / re-added with the same priority / re-added higher before anything is consumed '
+           '(one run of k consecutive dead entries at the very head or behind one live task), then pop / peek / '
+           'pop(default) / peek(default) as the FIRST read, pop, peek, pop, popped to empty, for k around 0, powers of '
+           'two, the interpreter recursion limit and beyond the first sub-list split; all against a dict + stable-sort '
+           'oracle', 'scenarios': []}
     for V, stats in dres:
         for v in V:
             ctx.violation(*v)
